@@ -373,6 +373,7 @@ type histResult struct {
 	Kinds    []string  `json:"key_kinds"`
 	Unobs    int       `json:"reloads_not_observed,omitempty"`
 	Paired   int       `json:"tokens_verified_against_a_later_fetched_key_set,omitempty"`
+	AfterTok int       `json:"key_sets_fetched_after_a_token_of_a_reloaded_generation,omitempty"`
 }
 
 func (c *histCfg) kinds() []string {
